@@ -1,16 +1,19 @@
 import YaegiVerif.Common.Sexp
 import YaegiVerif.Model.Piecewise
 import YaegiVerif.Generated.C11
+import YaegiVerif.Expected.C11
 /- Line-protocol front end for C11 (glue, not a proof obligation).
 
-   prog (CUT…) (ITEM…)      → parts=<sizes of the texts> p=<obs> pat=<k> w=<obs> class=<label> dom=<0|1>
+   prog (CUT…) (ITEM…)      → parts=<sizes of the texts> p=<obs> pat=<k> w=<obs> g=<obs> class=<label> dom=<0|1|2>
+        g = the whole program under the facts of the unchanged source (validated against compiled Go)
         p = the session: every chunk of `split cuts items` handed to Eval as its maximal runs
         w = the whole program evaluated as one file
    hist (ITEM…) (ITEM…) …   → h=<obs> hat=<k> class=<label>   (dom: 2 = domain of chunks_eq_whole, 1 = of texts_eq_whole_partial)
         the texts of a session, given explicitly (redefinition histories)
    obs  = <ok|parse|redeclared|undefined|defloop|panic|fuel>|<tag:value,…>|<name:value,…>
    pat/hat = index of the text at which the session stopped, or -
-   ITEM = (var x E) (closure x B) (func f B) (type t) (method t m B) (init B) (stmt S) (define x E)
+   ITEM = (const x K last) [K = (num k) iota (ref x) (bin op K K); one spec of a const declaration, last closes it]
+          (var x E) (closure x B) (func f B) (type t) (method t m B) (init B) (stmt S) (define x E)
    E    = (num k) arg recv (glob x) (bin op E E) (call f E) (callv x E) (mcall t m E E)
    S    = (print tag E) (set x E) (eval E)          B = (body none|E (S…) E)
    The facts (resizeFrame copies, funcDecl overwrites, …) are the regenerated ones. -/
@@ -61,7 +64,22 @@ def parseB : Sexp → Option SBody
     some ⟨g', ss', r'⟩
   | _ => none
 
+partial def parseK : Sexp → Option KExpr
+  | .atom "iota" => some .iota
+  | .list [.atom "num", k] => k.int?.map .num
+  | .list [.atom "ref", .atom x] => some (.ref x)
+  | .list [.atom "bin", .atom op, a, b] => do
+    let o ← parseOp op
+    let a' ← parseK a
+    let b' ← parseK b
+    some (.bin o a' b')
+  | _ => none
+
 def parseItem : Sexp → Option Item
+  | .list [.atom "const", .atom x, e, last] => do
+    let e' ← parseK e
+    let l ← last.bool?
+    some (.const x e' l)
   | .list [.atom "var", .atom x, e] => (parseE e).map (.var x)
   | .list [.atom "closure", .atom x, b] => (parseB b).map (.closure x)
   | .list [.atom "func", .atom f, b] => (parseB b).map (.func f)
@@ -177,13 +195,15 @@ def handle (args : List Sexp) : String :=
        let texts := chunks.flatMap runs
        let p := session texts
        let w := evalWhole fx fuel State.empty items
+       -- the reading of the whole program that is validated against the toolchain: the facts of the unchanged source
+       let g := evalWhole Expected.C11.facts fuel State.empty items
        -- 2: domain of chunks_eq_whole (every cut list); 1: domain of texts_eq_whole_partial (this cut list); 0: outside
        let dom := if Dom fx State.empty items && initsIndirect items then 2
          else if Dom fx State.empty items && texts.all depsLocal then 1 else 0
        let parts := dash (",".intercalate (texts.map fun t => toString t.length))
        -- forward dependencies between the initialisers of one text (or of the whole file): not modelled
        let fwd := !orderOk items || texts.any (fun t => !orderOk t)
-       s!"parts={parts} p={showObs p.1} pat={showAt p.2} w={showObs w} class={classProg items texts} dom={dom} fwdvar={if fwd then 1 else 0}"
+       s!"parts={parts} p={showObs p.1} pat={showAt p.2} w={showObs w} g={showObs g} class={classProg items texts} dom={dom} fwdvar={if fwd then 1 else 0}"
      | _, _ => "bad-op")
   | .atom "hist" :: texts =>
     (match texts.mapM (fun t => match t with | .list its => its.mapM parseItem | _ => none) with
